@@ -162,6 +162,15 @@ const PN_CNS: [i64; 8] = [98, 99, 100, 101, 38, 6, 96, 97];
 
 /// One random operation over the (N)RPN scanners' alphabet (also used for the polling scanner).
 pub fn random_op(r: &mut Rng, nch: u64, v: &mut Vec<i64>) {
+    // sometimes repeat an earlier operation of this history verbatim (identical bytes again)
+    if v.len() >= 8 && v.len() % 4 == 0 && r.chance(1, 8) {
+        let i = 4 * r.below((v.len() / 4) as u64) as usize;
+        if v[i] != 3 && v[i] != 4 && v[i] != 7 {
+            let op = [v[i], v[i + 1], v[i + 2], v[i + 3]];
+            v.extend_from_slice(&op);
+            return;
+        }
+    }
     let kind = r.pick(&[0i64, 0, 0, 1, 5]);
     let c = r.below(nch) as i64;
     let val = if r.chance(1, 3) { r.pick(&[0i64, 1, 127]) } else { r.below(128) as i64 };
@@ -179,9 +188,11 @@ pub fn random_op(r: &mut Rng, nch: u64, v: &mut Vec<i64>) {
 pub fn random_history(r: &mut Rng, maxlen: u64, v: &mut Vec<i64>) -> usize {
     let len = r.below(maxlen + 1);
     let nch = r.pick(&[1u64, 1, 2, 3, 16]);
+    let mut ops = Vec::new();
     for _ in 0..len {
-        random_op(r, nch, v);
+        random_op(r, nch, &mut ops);
     }
+    v.extend(ops);
     len as usize
 }
 
@@ -237,8 +248,27 @@ pub fn gen_c10(tier: Tier, seed: u64, em: &mut Emitter) {
         // C10 claims the LSB-first encoding for 14-bit messages, both orders otherwise
         let ord = if is14 { 1 } else { r.below(2) as i64 };
         let kind = r.pick(&[0i64, 1, 5, 6]);
-        let mut inp = vec![k, r.below(16) as i64, boundary14(&mut r), v, ord, kind];
+        let c = r.below(16) as i64;
+        let num = boundary14(&mut r);
+        let mut inp = vec![k, c, num, v, ord, kind];
         random_history(&mut r, maxlen, &mut inp);
+        if r.chance(1, 2) {
+            // prior traffic about the *same* parameter: a message of any kind with the same
+            // channel, number and (mostly) registered flag, possibly followed by dangling bytes
+            let k2 = if r.chance(3, 4) { (k / 4) * 4 + r.below(4) as i64 } else { r.below(8) as i64 };
+            let is14b = k2 == 1 || k2 == 5;
+            let v2 = if is14b { boundary14(&mut r) } else { r.below(128) as i64 };
+            let m2 = ctor(k2, ch(c), u14(num), v2);
+            let enc: [Option<RawShortMessage>; 4] = m2.to_short_messages(order(r.below(2) as i64));
+            for m in enc.iter().flatten() {
+                inp.push(0);
+                inp.extend_from_slice(&bytes_of(m));
+            }
+            for _ in 0..r.below(3) {
+                let n = r.pick(&[38i64, 38, 6, 96, 7]);
+                inp.extend_from_slice(&[0, 176 + c, n, r.below(128) as i64]);
+            }
+        }
         em.emit_k(if is14 { "encode-14bit-lsb-first" } else { "encode-7bit" }, 100, inp);
     }
     // running forms
@@ -248,8 +278,21 @@ pub fn gen_c10(tier: Tier, seed: u64, em: &mut Emitter) {
         let kind = r.pick(&[0i64, 1, 5]);
         let form = r.pick(&[6i64, 96, 97, 0]);
         let mut prior = Vec::new();
-        let np = random_history(&mut r, maxlen, &mut prior);
-        let mut inp = vec![c, r.below(2) as i64, boundary14(&mut r), form, kind, np as i64];
+        let mut np = random_history(&mut r, maxlen, &mut prior);
+        let reg = r.below(2) as i64;
+        let num = boundary14(&mut r);
+        if r.chance(1, 2) {
+            // the same parameter was selected before and a data entry LSB is left dangling
+            prior.extend_from_slice(&[0, 176 + c, if reg == 1 { 101 } else { 99 }, num / 128]);
+            prior.extend_from_slice(&[0, 176 + c, if reg == 1 { 100 } else { 98 }, num % 128]);
+            prior.extend_from_slice(&[0, 176 + c, 38, r.below(128) as i64]);
+            np += 3;
+            if r.chance(1, 2) {
+                prior.extend_from_slice(&[0, 176 + c, 6, r.below(128) as i64]);
+                np += 1;
+            }
+        }
+        let mut inp = vec![c, reg, num, form, kind, np as i64];
         inp.extend_from_slice(&prior);
         let len = if i % 50 == 0 { 200 + r.below(300) } else { r.below(12) };
         let cnt = if form == 0 { 2 * len } else { len };
